@@ -26,6 +26,17 @@ STATE = "leaspy.variables.state"
 
 def r1_snapshot(ctx, rid="C02.R1", title="snapshot of (name,)+sorted_children before the store, under auto_fork_type is not None"):
     ctx.rule(rid, title, 2)
+    # what is put aside keeps every key it was given - also those whose value is unset (None): the snapshot records *that* a derived value was
+    # not computed yet, and a revert resets it (a key dropped here keeps whatever was computed from the rejected proposal)
+    from ..astq import canon_lines as _cl
+    tc = ctx.ix.func(STATE, "StateForkType.to_cache", rid)
+    tl = "; ".join(_cl(tc.node, True, True))
+    import re as _re
+    tc_ok = _re.fullmatch(r"if \$0 is \$0\.REF; return \$1; return \{(%\d+): copy\.deepcopy\((%\d+)\) for \1, \2 in \$1\.items\(\)\}", tl) is not None \
+        or _re.fullmatch(r"if \$0 is \$0\.REF; return \$1; return copy\.deepcopy\(\$1\)", tl) is not None
+    ctx.form(rid, tc, tc.node, tl, {tl} if tc_ok else set(), ["return $1", "copy.deepcopy("], "to_cache keeps every key (by reference, or deep-copied)",
+             "StateForkType.to_cache no longer returns every entry it is given: an entry left out of the snapshot (e.g. a derived value that is still unset) is not reset by a revert, "
+             "so what was computed from the rejected assignment stays in the cache", forbidden=[r"\bfor\b[^{}]*\bif\b", r"is not None", r"\.pop\("], construct="to_cache keeps every key")
     f = ctx.ix.func(STATE, "State.__setitem__", rid)
     cfg = CFG(f.node)
     inl = Inliner(f.node)
